@@ -37,6 +37,8 @@ finally:
     for p in props:
         ev = os.path.join(VERIF, 'evidence', p + '.json')
         if os.path.exists(ev + '.bak'): shutil.move(ev + '.bak', ev)
+    # rebuild the harness from the restored tree so that nothing stale is left behind
+    subprocess.run('cargo build --offline -q 2>/dev/null; cargo build --release --offline -q 2>/dev/null', shell=True, cwd=os.path.join(VERIF, 'harness'), env=dict(os.environ, CARGO_NET_OFFLINE='true'))
 old = {}
 dp = os.path.join(d, 'detect.json')
 if os.path.exists(dp): old = json.load(open(dp))
